@@ -14,7 +14,7 @@ import re
 from .. import sym, irrules
 from ..sym import const_of, single_atom, atom, L
 from ..irrules import Report, base_name, obj_of, where
-from .ir_bounds import cmp_atom
+from .ir_bounds import cmp_atom, facts, known_lt, known_le
 
 
 def class_n(f):
@@ -199,16 +199,13 @@ class PairRule(sym.Rule):
         capcells = [a for a, t in eng.field_tag.items() if t == 1 and a[2] == src]
         ok = False
         how = None
-        # symmetrical exchange: the source received this object's old words
-        for (c, v) in st.conds:
-            a = cmp_atom(c)
-            if a is None:
-                continue
-            if a[1] == 'ult' and v is True and const_of(a[2]) is not None:
-                k = const_of(a[2])
-                i = init_of(a[3])
-                if i and i[0][2] == src and eng.field_tag.get(i[0]) == 1 and n is not None and k >= n:
-                    ok, how = True, 'path condition %d < capacity(source)' % k
+        fs = facts(st)
+        # K < capacity(source) for a constant K >= N (spelled `N < cap` or `!(cap <= N)`)
+        for (kind, x, y) in fs:
+            if kind == 'lt' and const_of(x) is not None and n is not None and const_of(x) >= n:
+                i = init_of(y)
+                if i and i[0][2] == src and eng.field_tag.get(i[0]) == 1:
+                    ok, how = True, 'path condition %d < capacity(source)' % const_of(x)
                     break
         if not ok and n == 0:
             # N == 0: the inline representation is (null, 0); adopting it is harmless when the
@@ -224,25 +221,15 @@ class PairRule(sym.Rule):
             # N < capacity(this) and capacity(this) <= capacity(source)
             lt_this = False
             le = False
-            for (c, v) in st.conds:
-                a = cmp_atom(c)
-                if a is None:
-                    continue
-                if a[1] == 'ult' and v is True and const_of(a[2]) is not None and const_of(a[2]) >= n:
-                    i = init_of(a[3])
+            for (kind, x, y) in fs:
+                if kind == 'lt' and const_of(x) is not None and const_of(x) >= n:
+                    i = init_of(y)
                     if i and i[0][2] == obj and eng.field_tag.get(i[0]) == 1:
                         lt_this = True
-                if a[1] in ('ule', 'ult') and v is True:
-                    i1, i2 = init_of(a[2]), init_of(a[3])
-                    if i1 and i2 and i1[0][2] == obj and i2[0][2] == src \
-                            and eng.field_tag.get(i1[0]) == 1 and eng.field_tag.get(i2[0]) == 1:
-                        le = True
-                if a[1] in ('ule', 'ult') and v is False:
-                    # not (cap(src) < cap(this))  ==  cap(this) <= cap(src)
-                    i1, i2 = init_of(a[2]), init_of(a[3])
-                    if a[1] == 'ult' and i1 and i2 and i1[0][2] == src and i2[0][2] == obj \
-                            and eng.field_tag.get(i1[0]) == 1 and eng.field_tag.get(i2[0]) == 1:
-                        le = True
+                i1, i2 = init_of(x), init_of(y)
+                if i1 and i2 and i1[0][2] == obj and i2[0][2] == src \
+                        and eng.field_tag.get(i1[0]) == 1 and eng.field_tag.get(i2[0]) == 1:
+                    le = True      # capacity(this) < or <= capacity(source)
             if lt_this and le:
                 ok, how = True, 'N < capacity(this) <= capacity(source) (asserted contract)'
         tested = False
@@ -329,12 +316,13 @@ class ShrinkRule(sym.Rule):
         if any((a[0] == 'init' and len(a) > 2) for t in (C, S, P) if t is not None for a in sym.atoms_of(t)):
             return      # an opaque helper rewrote the words: judged in that helper
 
+        fs = facts(st)
+
         def has(pred, x, y, val):
-            for (c, v) in st.conds:
-                a = cmp_atom(c)
-                if a is not None and a[1] == pred and a[2] == x and a[3] == y and v is val:
-                    return True
-            return False
+            # (ult x y) is val
+            if val:
+                return known_lt(fs, x, y)
+            return known_le(fs, y, x)
 
         def eq(x, y, val):
             for (c, v) in st.conds:
